@@ -279,6 +279,10 @@ impl Family for C03 {
         ]
     }
 
+    fn long_running(s: &S03) -> bool {
+        s.giant.is_some()
+    }
+
     fn rule() -> &'static str {
         "one case = (endianness, writer word u8..u128, writer medium {vector, WordAdapter over SimDisk with benign short-write/Interrupted faults}, reader {buffered u8..u64, unbuffered}, reader backend (6 kinds, device ones with benign read faults), bit offset 0..=2W+1, 1-14 items each = (code among unary/gamma/delta/omega/zeta_k k=1..63/pi_k,exp-Golomb_k,Rice_k k=0..63/Golomb_b,minimal-binary_u with b,u in 1..2^64/VByte BE,LE; value among small, 2^i-1,2^i,2^i+1, domain maximum, random bit length; write-side and read-side method variant incl. table options and parameterless defaults), half of them followed by a raw sentinel of random width). distinct_nontrivial = distinct (endianness, reader, writer word, code class, read variant, codeword length) signatures Scale scenarios: one run in 200-400 has several hundred operations or a zero run / unary part / copy / skip / slice above 2^16 bits; one run in 100 000 (sim/src/giant.rs) has a unary / Rice / Golomb codeword with a unary part of 2^32-2 .. 2^32+137 bits written into a sparse recording sink and read back from a sparse source rebuilt from what the sink received."
     }
